@@ -8,7 +8,7 @@ BUDGET = {"quick": 1200, "thorough": 25000}
 LEVEL_TEXT = ("Lean theorem C08_full_holds: for every rule list (prefixed or bare, allow or deny, ':' inside patterns), user, path and "
               "every file-system / regexp oracle, a file is served iff the user is a background-job user or the path resolves to a regular "
               "file whose last matching rule is an allow; tied to the code by the real HasFilePermission and real cat sessions over a "
-              "directory tree with symlink chains, '..', relative paths, FIFO, directory, device, the regexp answers supplied by Go's regexp")
+              "directory tree with symlink chains, '..', relative paths, FIFO, directory, device, the regexp answers supplied by Go's regexp; c08.cat lets the client choose the command word and its options (serverless, plain, quiet, context options): nothing a client says about itself changes what is served")
 TRUSTED = ["Lean 4 kernel", "axioms: propext, Quot.sound, Classical.choice (at most)", "fact extractor (service user names)",
            "overlay harness + dtmodel driver + this diff",
            "modelled not verified: filepath.EvalSymlinks/Abs, os.Lstat, regexp (all oracle parameters of the theorem, answered by the real "
